@@ -1,7 +1,7 @@
-\* C23 tree variant: base + 2 sub-directories, 1 managed + 1 unmanaged name per directory, <=1 faulty desired entry
+\* C23 tree variant: base + 1 sub-directory (monitor that must be violated), 1 managed + 1 unmanaged name per directory, <=1 faulty desired entry
 SPECIFICATION TSpec
 CONSTANTS
-  SubDirs = {"s1", "s2"}
+  SubDirs = {"s1"}
   TreeEntryTok = {"none", "f:a:644", "f:a:600"}
   Managed = {"m1"}
   Unmanaged = {"u1"}
